@@ -431,10 +431,11 @@ def _client_ctx():
 CLIENT_TIMEOUT = float(os.environ.get("VERIF_C14_CLIENT_TIMEOUT", "10"))
 
 
-def _rogue(port, kind, barrier=None):
+def _rogue(port, kind, barrier=None, slot=0):
     """Clients that never send a request: a TLS first byte followed by garbage / an abandoned handshake, and a
     peer that resets before its first byte.  Nothing is expected back."""
     try:
+        time.sleep(slot * CONNECT_PACE)
         s = socket.create_connection(("127.0.0.1", port), timeout=5)
         if barrier is not None:
             try:
@@ -458,8 +459,14 @@ def _rogue(port, kind, barrier=None):
         pass
 
 
+# socketserver listens with a backlog of 5.  When more clients than that connect at the very same instant the kernel
+# falls back to SYN cookies, and on this kernel the first data segment of such a connection can then be LOST (shown with a
+# plain socket server, nothing to do with the code under test).  Clients therefore connect a few milliseconds apart.
+CONNECT_PACE = 0.004
+
+
 def _exchange(port, rq, barrier=None, handshake_first=True, timeout=None, connect_late=False, send_delay=0.0,
-              split_at=0):
+              split_at=0, slot=0):
     timeout = timeout or CLIENT_TIMEOUT
     err = None
     data = b""
@@ -469,6 +476,7 @@ def _exchange(port, rq, barrier=None, handshake_first=True, timeout=None, connec
             # held an idle connection while waiting for the others would starve those others of a worker
             barrier.wait(30)
             barrier = None
+        time.sleep(slot * CONNECT_PACE)
         s = socket.create_connection(("127.0.0.1", port), timeout=timeout)
         try:
             if rq["tls"] and handshake_first:
@@ -521,10 +529,10 @@ def _burst(port, rqs, stagger_handshake, offsets=None, send_delays=None, rogues=
             time.sleep(max(0.0, t_start + offsets[i] - time.time()))
         outs[i] = _exchange(port, rqs[i], barrier, handshake_first=(not stagger_handshake or i % 2 == 0 or bool(send_delays)),
                             connect_late=(n > 32 and not send_delays), send_delay=(send_delays[i] if send_delays else 0.0),
-                            split_at=(split_at[i] if split_at else 0))
+                            split_at=(split_at[i] if split_at else 0), slot=(i if offsets is None else 0))
 
     ts = [threading.Thread(target=run, args=(i,), daemon=True) for i in range(n)]
-    ts += [threading.Thread(target=_rogue, args=(port, k, barrier), daemon=True) for k in rogues]
+    ts += [threading.Thread(target=_rogue, args=(port, k, barrier, n + j), daemon=True) for j, k in enumerate(rogues)]
     for t in ts:
         t.start()
     for t in ts:
@@ -739,6 +747,11 @@ def c14_stress(job, drv):
                     out["perturbed"].append({"n": len(names), "bad": bad, "nap_s": pj["nap"], "secs": round(time.time() - t0, 2)})
                 finally:
                     c.stop()
+            try:
+                with open(logb + ".stderr", errors="replace") as f:
+                    out["server_stderr_tail"] = f.read()[-int(job.get("stderr_tail", 1500)):] if out["mismatches"] else ""
+            except OSError:
+                out["server_stderr_tail"] = ""
             try:
                 with open(logb, errors="replace") as f:
                     lines = f.read().splitlines()
